@@ -213,10 +213,44 @@ func runFanScenario(sc fanScenario) fanResult {
 	case <-time.After(10 * time.Second):
 		res.note += "writers-stalled"
 	}
-	// let the channel writers drain
+	// let the channel writers drain: every healthy channel must have carried what was addressed to it (the harness knows the
+	// plan), however long its writer goroutine is kept off the CPU; then a quiet period for the rest
+	expect := make([]int, sc.k)
+	for _, ops := range sc.plan {
+		for _, o := range ops {
+			if o.bad {
+				continue
+			}
+			for c := 0; c < sc.k; c++ {
+				switch o.target {
+				case 'a':
+					expect[c]++
+				case 't':
+					if o.ch == c {
+						expect[c]++
+					}
+				case 'x':
+					if o.ch != c {
+						expect[c]++
+					}
+				}
+			}
+		}
+	}
+	dlAll := time.Now().Add(8 * time.Second)
+	for c := range conns {
+		_, blocked := sc.blockAt[c]
+		_, failing := sc.failAt[c]
+		if blocked || failing || c == sc.pace {
+			continue
+		}
+		for len(conns[c].snapshotWrites()) < expect[c] && time.Now().Before(dlAll) {
+			time.Sleep(200 * time.Microsecond)
+		}
+	}
 	deadline := time.Now().Add(3 * time.Second)
 	last, stable := -1, 0
-	for time.Now().Before(deadline) && stable < 20 {
+	for time.Now().Before(deadline) && stable < 40 {
 		tot := 0
 		for _, c := range conns {
 			tot += len(c.snapshotWrites())
